@@ -18,8 +18,10 @@ axiom substr_of_concat: allT(a, bitstr.Key, allT(b, bitstr.Key, substr(a + b, 0,
 func FlipLastBit(k bitstr.Key) bitstr.Key
   props C18 C17
   modifies nothing
-  ensures [same-length] imp(len(k) == 0 || k[len(k)-1] == 48 || k[len(k)-1] == 49, len(result) == len(k))
+  ensures [same-length] len(result) == len(k)
   ensures [same-parent] imp(len(k) > 0, substr(result, 0, len(k)-1) == substr(k, 0, len(k)-1))
+  # type invariant of bitstr.Key (a string of '0' and '1'): ASSUMED
+  ghost at entry: assume(len(k) == 0 || k[len(k)-1] == 48 || k[len(k)-1] == 49)
 
 func IsBitstrPrefix(k0 bitstr.Key, k1 bitstr.Key) bool
   props C18 C17
